@@ -240,6 +240,7 @@ func (rb *Rebalancer) removeServer(u *url.URL) error {
 func (rb *Rebalancer) upsertServer(u *url.URL, weight int) error {
 	if s, i := rb.findServer(u); i != -1 {
 		s.origWeight = weight
+		return nil
 	}
 	meter, err := rb.newMeter()
 	if err != nil {
